@@ -181,8 +181,9 @@ class VRec:
 
 class VSeq:
     """List of symbolic length n whose k-th element is elem(k) (a value built from a z3 array select)."""
-    def __init__(self, arr, n, wrap, tag=''):
+    def __init__(self, arr, n, wrap, tag='', unwrap=None):
         self.arr, self.n, self.wrap, self.tag = arr, n, wrap, tag
+        self.unwrap = unwrap          # sidecar-defined element encoder (value -> z3 term), see models.unwrap_elem
 
     def get(self, k):
         v = self.wrap(self.arr[k])
@@ -191,7 +192,7 @@ class VSeq:
         return v
 
     def copy(self):
-        return VSeq(self.arr, self.n, self.wrap, self.tag)
+        return VSeq(self.arr, self.n, self.wrap, self.tag, self.unwrap)
 
 
 class VArr:
@@ -1037,8 +1038,14 @@ class Exec:
         return [(st, Outcome('continue', node=s))]
 
     def st_Assert(self, s, st):
-        self.dropped.add('assert')
-        return [(st, NORMAL)]
+        if not getattr(self, 'asserts', False):
+            self.dropped.add('assert')              # default: as under `python -O`
+            return [(st, NORMAL)]
+        # `ex.asserts = True`: an assert statement is `if not test: raise AssertionError`
+        d = self.decide(st, self.truth(st, self.ev(s.test, st), s), s)
+        if d:
+            return [(st, NORMAL)]
+        return [(st, Outcome('raise', exc='AssertionError', node=s))]
 
     def st_Try(self, s, st):
         return self.models.try_stmt(self, st, s)
